@@ -181,6 +181,11 @@ func FetchType(typ reflect.Type, typMap map[string]reflect.Type) {
 		return
 	}
 
+	// a type already recorded is not walked again (self-referential types)
+	if _, ok := typMap[typ.Name()]; ok {
+		return
+	}
+
 	typMap[typ.Name()] = typ
 	for i := 0; i < typ.NumField(); i++ {
 		FetchType(typ.Field(i).Type, typMap)
